@@ -223,6 +223,11 @@ static bool authenticode_verify(PKCS7* p7, PKCS7_SIGNER_INFO* si, X509* signCert
     BIO* contentBio = BIO_new_mem_buf(contentData, contentLen);
     /* Create `digest` type BIO to calculate content digest for verification */
     BIO* p7bio = PKCS7_dataInit(p7, contentBio);
+    if (!p7bio) {
+        /* contentBio was not pushed into any chain, nobody else frees it */
+        BIO_free(contentBio);
+        return false;
+    }
 
     char buf[4096];
     /* We now have to 'read' from p7bio to calculate content digest */
